@@ -67,8 +67,10 @@ class A(Adapter):
     has_observer = True
 
     def configs(self):
-        base = [cfg("r10c10", True, r=10, c=10, tl=None), cfg("r6c6", True, r=6, c=6, tl=None), cfg("r8c5", r=8, c=5, tl=None),
-                cfg("r5c9", r=5, c=9, tl=None)]
+        # the small quick configuration is non-square (rows != columns != padded sizes): shape slips between reset and step
+        # states, row/column mix-ups and padding arithmetic are invisible on square boards
+        base = [cfg("r10c10", True, r=10, c=10, tl=None), cfg("r7c5", True, r=7, c=5, tl=None), cfg("r8c5", r=8, c=5, tl=None),
+                cfg("r5c9", r=5, c=9, tl=None), cfg("r6c6", r=6, c=6, tl=None)]
         return cross_tl(base, [1, 2, 3, 7])
 
     def build(self, c):
